@@ -1,6 +1,7 @@
 import ArimModel.Assembly
 import ArimModel.Weights
 import ArimProofs.Lemmas.Reciprocity
+import ArimProofs.Tie.C03
 import Mathlib.Analysis.SpecialFunctions.Trigonometric.Complex
 import Mathlib.Tactic.Ring
 import Mathlib.Tactic.LinearCombination
@@ -477,5 +478,50 @@ example : ∃ asin : ℂ → ℂ, (∀ x, Complex.sin (asin x) = x) ∧
   refine ⟨⟨by linarith, by linarith, by simp, by simp, by simp⟩, trivial⟩
 
 end star
+
+
+/-! ## On the source as translated on this run
+
+`SrcC03.tx_ray_weights` / `SrcC03.rx_ray_weights` (file `Generated/SrcC03.lean`) are read from
+`/repo/src/arim/models/block_in_immersion.py` on every run: which switch guards which factor, which model function supplies
+it, the order of the product, the `sqrt(lambda)` normalisation.  `Tie.C03` identifies them with `txWeight` / `rxWeight`, so
+`reciprocity_immersion` is a statement about the weights as the source assembles them. -/
+noncomputable section OnSource
+open Arim.Tie.C03 Arim.Iface Arim.Weights Arim.Recip Arim.C04 Arim.C06
+
+/-- **reciprocity with the weights assembled by the translated source**: the factor record of view end `A` holds the values of
+`transRefl` / `revTransRefl` (displacement units) and of the two beamspreads of path `A`, likewise `B`; then the coefficient of
+view `A–B` (transmit `i`, receive `j`) equals that of the reciprocal view (transmit `j`, receive `i`) -/
+theorem src_reciprocity_immersion (asin : ℂ → ℂ) (hsin : ∀ x, Complex.sin (asin x) = x)
+    (m : Media ℝ) (h : MediaPos m) (f : ℝ) (hf : 0 < f)
+    (stepsA stepsB : List Step) (hneA : stepsA ≠ []) (hneB : stepsB ≠ [])
+    (legsA legsB : List ℝ) (hlegsA : legsA.length = stepsA.length + 1)
+    (hlegsB : legsB.length = stepsB.length + 1)
+    (hgA : GoodFrom asin m none stepsA) (hgB : GoodFrom asin m none stepsB)
+    (ud ua : Bool) (FA FB : Arim.SrcC03.Factors ℂ) (Sab Sba : ℂ)
+    (hFA₁ : transRefl (cTrig asin) (toC m) true (specsFrom (toC m) none stepsA) = .ok (some FA.transrefl_fwd_displacement))
+    (hFA₂ : revTransRefl (cTrig asin) (toC m) true (specsFrom (toC m) none stepsA) = .ok (some FA.transrefl_rev_displacement))
+    (hFB₁ : transRefl (cTrig asin) (toC m) true (specsFrom (toC m) none stepsB) = .ok (some FB.transrefl_fwd_displacement))
+    (hFB₂ : revTransRefl (cTrig asin) (toC m) true (specsFrom (toC m) none stepsB) = .ok (some FB.transrefl_rev_displacement))
+    (hbA₁ : FA.beamspread_fwd = (beamspread rT legsA (velsFrom m none stepsA) (stepsA.map (·.θ)) : ℝ))
+    (hbA₂ : FA.beamspread_rev = (revBeamspread rT legsA (velsFrom m none stepsA) (stepsA.map (·.θ)) : ℝ))
+    (hbB₁ : FB.beamspread_fwd = (beamspread rT legsB (velsFrom m none stepsB) (stepsB.map (·.θ)) : ℝ))
+    (hbB₂ : FB.beamspread_rev = (revBeamspread rT legsB (velsFrom m none stepsB) (stepsB.map (·.θ)) : ℝ))
+    (hlA : FA.sqrt_lambda_last_mode = (Real.sqrt (velS m (stepsA.getLast hneA).mOut / f) : ℝ))
+    (hlB : FB.sqrt_lambda_last_mode = (Real.sqrt (velS m (stepsB.getLast hneB).mOut / f) : ℝ))
+    (hS : modeConst m f (stepsA.getLast hneA).mOut * Sab = modeConst m f (stepsB.getLast hneB).mOut * Sba) :
+    Sab * Arim.SrcC03.tx_ray_weights ud true true ua 1 FA * Arim.SrcC03.rx_ray_weights ud true true ua 1 FB
+      = Sba * Arim.SrcC03.tx_ray_weights ud true true ua 1 FB * Arim.SrcC03.rx_ray_weights ud true true ua 1 FA := by
+  obtain ⟨TA, TrevA, TB, TrevB, h1, h2, h3, h4, hrec⟩ := reciprocity_immersion asin hsin m h f hf stepsA stepsB hneA hneB
+    legsA legsB hlegsA hlegsB hgA hgB ⟨ud, true, true, ua⟩ rfl rfl FA.directivity FA.attenuation FB.directivity FB.attenuation Sab Sba hS
+  rw [hFA₁] at h1; rw [hFA₂] at h2; rw [hFB₁] at h3; rw [hFB₂] at h4
+  injection h1 with h1; injection h1 with h1
+  injection h2 with h2; injection h2 with h2
+  injection h3 with h3; injection h3 with h3
+  injection h4 with h4; injection h4 with h4
+  rw [tie_tx_ray_weights, tie_rx_ray_weights, tie_tx_ray_weights, tie_rx_ray_weights, hbA₁, hbA₂, hbB₁, hbB₂, hlA, hlB, h1, h2, h3, h4]
+  exact hrec
+
+end OnSource
 
 end Arim.C03
